@@ -68,6 +68,7 @@ def check(ctx) -> None:
     r610(ctx)
     r611(ctx)
     r612(ctx)
+    r613(ctx)
     ctx.extra_coverage['call_graph'] = {
         'functions': len(cg.funcs), 'call_sites_resolved': cg.resolved,
         'call_sites_unresolved': cg.unresolved,
@@ -1385,3 +1386,93 @@ def r612(ctx) -> None:
                if isinstance(x, ast.FunctionDef))
     R.check(hits == 1, None, None, 'positive fixture still matches',
             f'fixtures/r612_positive.py: {hits} hit(s), expected 1')
+
+
+# ----------------------------------------------------------------------
+# Third-party (pysasl) entry points that are handed client-chosen data and
+# raise ValueError on it.  Frozen from reading pysasl 1.x:
+#   ServerMechanism.server_attempt  -- decodes the response as UTF-8
+#   saslprep (config.password_prep) -- raises ValueError(source) for a code
+#                                      point of a prohibited table
+def _handles_value_error(f, node, proj) -> bool:
+    for t in enclosing(f.node, node, (ast.Try,)):
+        if not any(node is x for b in t.body for x in ast.walk(b)):
+            continue
+        for h in t.handlers:
+            names = ['BaseException'] if h.type is None else (
+                [txt(e).split('.')[-1] for e in h.type.elts]
+                if isinstance(h.type, ast.Tuple)
+                else [txt(h.type).split('.')[-1]])
+            if {'ValueError', 'Exception', 'BaseException',
+                    'UnicodeError'} & set(names):
+                return True
+    return False
+
+
+def r613(ctx) -> None:
+    R = ctx.rule('R6.13', 'third-party SASL code is handed client data only '
+                 'under a ValueError handler', 4)
+    proj = ctx.proj
+    n = 0
+    for f in proj.all_funcs('pymap/'):
+        if f.rel.startswith(('pymap/admin/', 'pymap/backend/redis/')):
+            continue
+        for c in calls_in(f.node, 'server_attempt'):
+            n += 1
+            ok = _handles_value_error(f, c, proj)
+            how = 'handled locally'
+            if not ok:
+                # handled by every caller of this function?
+                sites = [(g, x) for g in proj.all_funcs('pymap/')
+                         if f.name in g.module.src
+                         for x in calls_in(g.node, f.name)]
+                ok = bool(sites) and all(_handles_value_error(g, x, proj)
+                                         for g, x in sites)
+                how = f'handled at all {len(sites)} call site(s)'
+            R.check(ok, f, c, f'{f.qualname}: mech.server_attempt() under a '
+                    f'ValueError handler',
+                    'the mechanism decodes the client\'s response as UTF-8; '
+                    'UnicodeDecodeError (a ValueError) is not an '
+                    'AuthenticationError and nothing here handles it: '
+                    'AUTHENTICATE PLAIN + base64 of b"\\x00\\xff\\xfe\\x00x" '
+                    '-> * BYE [SERVERBUG]', how)
+        # prepare = <...>.password_prep ; prepare(<client value>)
+        aliases = {t.id for s_ in walk_local(f.node)
+                   if isinstance(s_, ast.Assign) and isinstance(
+                       s_.value, ast.Attribute)
+                   and s_.value.attr == 'password_prep'
+                   for t in s_.targets if isinstance(t, ast.Name)}
+        for c in calls_in(f.node):
+            direct = isinstance(c.func, ast.Attribute) and \
+                c.func.attr == 'password_prep'
+            if not (direct or (isinstance(c.func, ast.Name)
+                               and c.func.id in aliases)) or not c.args:
+                continue
+            a = c.args[0]
+            client = (isinstance(a, ast.Name) and a.id in f.params()) or \
+                txt(a) == 'self.authcid'
+            if not client:
+                continue
+            if f.name in ('_hash_password', 'hash_password'):
+                # provisioning: every caller is the admin service or the
+                # demo-data loader (checked), never a login
+                callers = [g.rel for g in proj.all_funcs('pymap/')
+                           if 'hash_password' in g.module.src
+                           and g.cls is not f.cls
+                           for x in calls_in(g.node, 'hash_password')]
+                if callers and all(r.startswith('pymap/admin/') or
+                                   r == 'pymap/backend/dict/__init__.py'
+                                   for r in callers):
+                    continue
+            n += 1
+            R.check(_handles_value_error(f, c, proj), f, c,
+                    f'{f.qualname}: string preparation of `{txt(a)}` under '
+                    f'a ValueError handler',
+                    f'`{txt(c)}` applies SASLprep to a value the client '
+                    f'chose; a prohibited code point (a control character, '
+                    f'a lone surrogate from 8-bit input) raises ValueError, '
+                    f'which is not handled on the login path: LOGIN '
+                    f'"\\xff" "\\xfe" -> * BYE [SERVERBUG]')
+    if n < 4:
+        raise AnchorError(f'only {n} third-party SASL call(s) with client '
+                          f'data found')
